@@ -261,8 +261,12 @@ def check(facts, rep, tier, cfg):
                     c = callee(t)
                     if c and c["name"] in ("get_mut", "insert") and "HashMap" in c["def"] and "Sender<penguin_mux::Datagram>" in c["path"]:
                         where = "%s (%s)" % (loc_str(t["loc"]), b.path)
-                        kf = set(x[2] for x in walk(tr.operand(t["args"][1])) if x.kind == "field" and (x[3] or "").endswith("Datagram"))
-                        ok = kf == {"flow_id"}
+                        kn = tr.operand(t["args"][1])
+                        kf = set(x[2] for x in walk(kn) if x.kind == "field" and (x[3] or "").endswith("Datagram"))
+                        top = strip(kn)
+                        while top.kind in ("ref", "deref"):
+                            top = strip(top[1])
+                        ok = kf == {"flow_id"} and top.kind == "field" and top[2] == "flow_id"
                         (rep.ok if ok else rep.bad)("C01.R2", "server-routes-by-flow-id/%s" % c["name"], where,
                                                     "udp_clients keyed by datagram.flow_id" if ok else "server UDP client table keyed by %s" % sorted(kf))
     # ---- R5 every forwarded datagram goes to the target it names
@@ -321,3 +325,98 @@ def check(facts, rep, tier, cfg):
             rules_c13.check_r4_written_amount(facts, rep, bodies, rid="C01.R6")
         elif "tokio-io-util" in mux.features or "std" in mux.features:
             rep.bad("C01.R6", "floor/bridge", "", "no bridge poll functions found in penguin_mux (anchor missing)")
+
+    # ---- R7 the server dials the address resolved from the channel's target
+    if has_server:
+        rep.rule("C01.R7", "server TCP forwarder: the socket is connected to the address resolved from (channel.dest_host, channel.dest_port)")
+        k7 = 0
+        for b in crate.bodies:
+            if "/src/server/" not in b.file:
+                continue
+            tr = None
+            for bi, t in b.calls():
+                c = callee(t)
+                if not c or c["name"] != "connect" or "TcpSocket" not in c["path"]:
+                    continue
+                tr = tr or Tracer(facts, b)
+                k7 += 1
+                rep.analysed(b)
+                where = "%s (%s)" % (loc_str(t["loc"]), b.path)
+                an = tr.operand(t["args"][1])
+                flds = set(x[2] for x in walk(an) if x.kind == "field" and x[2] in ("dest_host", "dest_port"))
+                other = [x[6] for x in walk(an) if x.kind == "call" and x[6] in ("local_addr", "peer_addr")]
+                if flds == {"dest_host", "dest_port"} and not other:
+                    rep.ok("C01.R7", "connect-target", where, "connect(addr resolved from dest_host, dest_port)")
+                else:
+                    rep.bad("C01.R7", "connect-target", where, "the outgoing TCP connection is made to an address derived from %s %s, not from the "
+                                                               "channel's (dest_host, dest_port)" % (sorted(flds), other))
+        rep.floor("C01.R7", "server connect sites", k7, 1)
+    # ---- R8 / R9 client: header flag and payload integrity of outgoing datagrams
+    if has_client:
+        rep.rule("C01.R8", "the SOCKS5 flag stored for a UDP client is true exactly when its datagrams come through the SOCKS5 UDP relay header parser")
+        rep.rule("C01.R9", "datagram payloads are forwarded unmodified: Datagram.data is the receive buffer (truncated to the received length) "
+                           "or the payload returned by the relay-header parser, through conversions only")
+        k8 = 0
+        for b in crate.bodies:
+            if "/src/client/" not in b.file:
+                continue
+            tr = None
+            for bi, t in b.calls():
+                c = callee(t)
+                if not c or c["name"] != "add_udp_client" or len(t["args"]) < 4:
+                    continue
+                tr = tr or Tracer(facts, b)
+                k8 += 1
+                rep.analysed(b)
+                where = "%s (%s)" % (loc_str(t["loc"]), b.path)
+                flag = const_eval(tr.operand(t["args"][3]))
+                via_header = any(callee(t2) and callee(t2)["name"] in ("parse_udp_relay_header", "handle_udp_relay_header") for _, t2 in b.calls())
+                if flag is None:
+                    rep.bad("C01.R8", "socks5-flag/%s" % b.path.split("::{")[0], where, "the SOCKS5 flag of add_udp_client is not a constant here")
+                elif bool(flag) == via_header:
+                    rep.ok("C01.R8", "socks5-flag/%s" % b.path.split("::{")[0], where, "socks5 = %s, relay header parsed here: %s" % (bool(flag), via_header))
+                else:
+                    rep.bad("C01.R8", "socks5-flag/%s" % b.path.split("::{")[0], where,
+                            "UDP client registered with socks5 = %s although its datagrams %s the SOCKS5 relay header: replies %s" % (
+                                bool(flag), "carry" if via_header else "do not carry",
+                                "reach the SOCKS client without the RFC 1928 UDP header" if via_header else "get a header the plain UDP client cannot parse"))
+        rep.floor("C01.R8", "add_udp_client call sites", k8, 2)
+        CONV = {"from", "into", "into_static", "freeze", "clone", "to_vec", "copy_from_slice", "from_elem", "from_static", "as_bytes", "new", "deref",
+                "parse_udp_relay_header", "handle_udp_relay_header", "branch", "from_residual", "with_capacity", "recv_from", "read_line", "poll", "into_future"}
+        k9 = 0
+        for side in ("/src/client/", "/src/server/"):
+            for b in crate.bodies:
+                if side not in b.file or "::tests::" in b.path:
+                    continue
+                tr = None
+                for bi, blk in enumerate(b.blocks):
+                    if blk["cleanup"]:
+                        continue
+                    for st in blk["stmts"]:
+                        if not (st["k"] == "Assign" and st["rv"]["k"] == "Aggregate" and st["rv"]["agg"].get("adt", "").endswith("penguin_mux::Datagram")):
+                            continue
+                        tr = tr or Tracer(facts, b)
+                        k9 += 1
+                        rep.analysed(b)
+                        f = dict(zip(st["rv"]["agg"]["fields"], st["rv"]["ops"]))
+                        where = "%s (%s)" % (loc_str(st["loc"]), b.path)
+                        dn = tr.operand(f["data"])
+                        odd = sorted(set(x[6] for x in walk(dn) if x.kind == "call" and x[6] not in CONV and
+                                         any(x[1].startswith(k) for k in ("bytes::", "alloc::vec::", "alloc::string::", "core::slice::", "core::str::",
+                                                                          "alloc::slice::", "alloc::str::", "<bytes::", "<alloc::vec::", "<alloc::string::"))))
+                        # mutating calls on the receive buffer other than truncate(received length)
+                        bufmut = []
+                        for bj, t2 in b.calls():
+                            c2 = callee(t2)
+                            if c2 and c2["name"] in ("split_off", "split_to", "drain", "remove", "advance", "retain", "clear", "resize", "insert", "push", "truncate") \
+                                    and t2["args"] and ("Vec<u8>" in c2["path"] or "Vec::<u8>" in c2["path"] or "BytesMut" in c2["path"]):
+                                if c2["name"] == "truncate" and any(x.kind == "call" and x[6] == "recv_from" for x in walk(tr.operand(t2["args"][1]))):
+                                    continue
+                                bufmut.append(c2["name"])
+                        if odd or bufmut:
+                            rep.bad("C01.R9", "payload-unmodified/%s" % b.path.split("::{")[0], where,
+                                    "the datagram payload is transformed on its way (%s): the target / local client does not receive the bytes that were sent" % (odd + bufmut))
+                        else:
+                            rep.ok("C01.R9", "payload-unmodified/%s#%d" % (b.path.split("::{")[0], k9), where, "data <- receive buffer / parser payload via conversions only")
+        rep.floor("C01.R9", "Datagram construction sites", k9, 3)
+
